@@ -287,6 +287,6 @@ Fixpoint pmismatches_from (i : nat) (f : pcase -> bool) (l : list pcase) : list 
 
 Definition pmismatches := pmismatches_from 0.
 
-(* a small typed store, for the composition with the storage model's blobs: see Proofs/Profile.v *)
+(* the zero userProfile (what a failed LoadUserProfile is shipped as; a witness in Proofs/Profile.v) *)
 Definition empty_profile : profile :=
   mk_profile None None None 0 None (mk_boot 0 None) false None 0 [] [] None.
